@@ -1,14 +1,17 @@
 """C16 — knapsack and bin packing (solvor/knapsack.py, solvor/bin_pack.py) against the Pack models.
 
-Numbers are generated as decimals `k/d` with d in {1, 4, 10}.  Python receives the int `k` (d = 1)
-or the nearest double of `k/d`; the spec side (verified checkers, definitional optima, the proved
-rational models) receives the exact rational `k/d`, the bit-level mirrors receive the doubles.
-Every R_prop clause is decided on the exact rationals; a failure therefore differs from a correct
-answer by a whole item / a whole bin / at least 1/20 of weight, never by float noise.
+Numbers are generated as `k/d` with d in {1, 4, 10}.  Python receives the int `k` (d = 1) or the
+nearest double of `k/d`.  The spec side (verified checkers, definitional / proved optima, the proved
+rational models) receives the EXACT RATIONAL VALUE OF THE DOUBLE ACTUALLY PASSED (`Fraction(float)`),
+the bit-level mirrors receive the doubles themselves.  Every R_prop clause is decided on those exact
+values; where the code itself computes in floating point the clause carries the tolerance stated in
+ASSUMPTIONS, and the optimum is computed strictly, tolerantly and with a shrunk capacity - a clause
+about optimality is failed only if the answer is wrong under all of these readings.
 """
 from __future__ import annotations
 
 import copy
+import struct
 from fractions import Fraction
 
 import core
@@ -18,20 +21,26 @@ from pool import err_kind, run_pool
 AREAS = ["Pack"]
 LEVEL = "proof"
 ASSUMPTIONS = [
-    "decimal inputs k/10 are read as the decimals the generator wrote (Python gets the nearest double); "
-    "feasibility, loads, optima and the 11/9 bound are decided on those exact rationals (for integers and "
-    "k/4 the double is the rational)",
-    "the floating-point front end of solve_knapsack (_to_int_capacity/_scaled, the +1e-9 weight re-check, "
-    "_greedy_fallback) and float bin loads are mirrored on Lean `Float` (same IEEE doubles) and tied by "
-    "R_trace only; the theorems are about the same generic code instantiated at Rat",
-    "the 11/9*OPT+6/9 bound is not proved in Lean; it is checked per instance against `minBins`, a bounded "
-    "exhaustive oracle evaluated in the driver: its packing is submitted to the verified checker chkPack, so OPT <= "
-    "minBins is certified on every instance (an alarm `k > 11/9*minBins+6/9` is therefore sound); minimality of "
-    "minBins is certified only when it meets the proved lower bound ceil(sum/cap) (counted in the histogram), "
-    "otherwise it rests on the exhaustive search",
-    "solve_bin_pack's algorithm-name parsing is done by the harness (flags useBest/decreasing go to the model)",
+    "every clause is decided on the exact rational values of the doubles handed to the implementation; when every "
+    "weight/size/capacity is an integer or k/4 (exactly representable, float arithmetic on them exact) no tolerance "
+    "is used at all",
+    "knapsack with inexact inputs: weight <= capacity is checked as weight <= capacity + 1e-9 + 2^-50*(n+2)*max(1,capacity) "
+    "(the code's own re-check `total_weight > capacity + 1e-9`, plus the rounding of its float summation); an "
+    "OPTIMAL answer is failed only if its value is below the optimum for the capacity SHRUNK by that tolerance "
+    "(hence also below the strict and the tolerant optimum), by more than 1e-9*max(1,|optimum|) when values are inexact",
+    "bin packing with inexact inputs: the code keeps `remaining` by float subtraction; each of the <= n subtractions "
+    "errs by <= 2^-53*capacity, so an exact load can exceed the capacity by < n*2^-53*capacity without the code seeing it "
+    "(and a fit can be refused by the same margin): loads are checked against capacity*(1+n*2^-52); OPT is computed "
+    "for capacity*(1-n*2^-52) (an item larger than that is read as filling its bin), capacity and capacity*(1+n*2^-52), and `OPTIMAL not minimal` / the 11/9 bound are "
+    "failed only with the LARGEST of the three optima (wrong under every reading)",
+    "objective = sum of values: exact for dyadic values, otherwise within 1e-9*max(1,|sum|) (float summation)",
+    "the floating-point instance of the model (Lean `Float`, same IEEE doubles) is tied by R_trace only; the theorems "
+    "are about the same generic code instantiated at Rat (tolerances as parameters, exact statement at 0)",
+    "the 11/9*OPT+6/9 bound is not proved in Lean; it is checked per instance against a certified optimum: the fast "
+    "search `minBins` returns a packing accepted by the verified checker chkPack (OPT <= minBins) and the proved "
+    "enumerator `minBinsP` (theorem minBinsP_le: no valid packing has fewer bins) returns the same number",
 ]
-RULE = ("knapsack: <=12 items (thorough <=16), values/weights/capacity integers or decimals k/4, k/10, with zero "
+RULE = ("knapsack: <=12 items (thorough <=16), values/weights/capacity integers or k/4, k/10, with zero "
         "weights, zero capacity, exact fills, near fills, ties, minimize/maximize, capacities whose scaling is lossy "
         "(32.3, >100, >25000) and a malformed stream; bin packing: <=12 items, the four heuristics under several "
         "spellings, zero sizes, items equal to the capacity, exact fills. Non-trivial = at least one item rejected "
@@ -40,7 +49,7 @@ RULE = ("knapsack: <=12 items (thorough <=16), values/weights/capacity integers 
 
 
 # ---------------------------------------------------------------------------
-# numbers: [k, d, f]  ->  Python value / exact rational
+# numbers: [k, d, f]  ->  Python value / exact rational of the value passed
 # ---------------------------------------------------------------------------
 
 def pyval(x):
@@ -50,8 +59,21 @@ def pyval(x):
     return k / d
 
 
-def frac(x) -> Fraction:
+def dec(x) -> Fraction:
+    """the decimal the generator wrote"""
     return Fraction(x[0], x[1])
+
+
+def frac(x) -> Fraction:
+    """exact value of what Python receives"""
+    v = pyval(x)
+    return Fraction(v)
+
+
+def exact(x) -> bool:
+    """the double is the decimal (integers, k/4, 5/10 ...) and small enough for exact float sums"""
+    return frac(x) == dec(x) and abs(x[0]) < 2**40 and (frac(x).denominator & (frac(x).denominator - 1)) == 0 \
+        and frac(x).denominator <= 1024
 
 
 def rat(x):
@@ -59,8 +81,16 @@ def rat(x):
     return [f.numerator, f.denominator]
 
 
+def fr(f: Fraction):
+    return [f.numerator, f.denominator]
+
+
 def bits(x) -> int:
     return core.fbits(float(pyval(x)))
+
+
+def unbits(b: int) -> Fraction:
+    return Fraction(struct.unpack("<d", struct.pack("<Q", b))[0])
 
 
 def num(rng, d, lo, hi, f=None):
@@ -143,7 +173,7 @@ def gen_knap(rng, big: bool):
     cap = num(rng, d, 0, cmax, fl)
     if n and rng.random() < 0.35:  # capacity = weight of a random subset (exact fill), maybe one unit short
         sub = [w for w in wts if rng.random() < 0.5]
-        tot = sum((frac(w) for w in sub), Fraction(0)) * d
+        tot = sum((dec(w) for w in sub), Fraction(0)) * d
         cap = [max(0, int(tot) - (1 if rng.random() < 0.3 else 0)), d, fl]
     vals = [num(rng, dv, 0, 9) for _ in range(n)]
     if n >= 2 and rng.random() < 0.3:  # ties: duplicate an item
@@ -259,20 +289,54 @@ def impl(case):
             "objective": core.rat(r.objective), "unchanged": s == s0}
 
 
+# ---------------------------------------------------------------------------
+# tolerances (see ASSUMPTIONS)
+# ---------------------------------------------------------------------------
+
+def knap_caps(case):
+    """[strict, feasibility, optimum] capacities"""
+    C = frac(case["capacity"])
+    if all(exact(x) for x in case["weights"] + [case["capacity"]]):
+        return [C, C, C]
+    n = len(case["weights"])
+    tol = Fraction(1, 10**9) + Fraction(n + 2, 2**50) * max(1, C)
+    return [C, C + tol, max(Fraction(0), C - tol)]
+
+
+def pack_caps(case):
+    """[strict] or [strict, tolerant, shrunk] capacities"""
+    C = frac(case["capacity"])
+    if all(exact(x) for x in case["sizes"] + [case["capacity"]]) or C <= 0:
+        return [C]
+    n = len(case["sizes"])
+    return [C, C * (1 + Fraction(n, 2**52)), C * (1 - Fraction(n, 2**52))]
+
+
+def pack_readings(case):
+    """(capacity, sizes) pairs the optimum is computed for; under the shrunk capacity an item that only fits a
+    bin of its own within the tolerance is read as filling that bin exactly (it is alone in its bin anyway)"""
+    S = [frac(x) for x in case["sizes"]]
+    return [(c, [min(s, c) for s in S]) for c in pack_caps(case)]
+
+
 def to_request(case, out):
     res = out[1] if out[0] == "ok" and out[1]["shape"] else None
     if case["fn"] == "knapsack":
-        return ["knap", [rat(x) for x in case["weights"]], [rat(x) for x in case["values"]], rat(case["capacity"]),
+        return ["knap", [rat(x) for x in case["weights"]], [rat(x) for x in case["values"]],
+                [fr(c) for c in knap_caps(case)],
                 [bits(x) for x in case["weights"]], [bits(x) for x in case["values"]], bits(case["capacity"]),
+                [isinstance(pyval(x), int) for x in case["weights"]], [isinstance(pyval(x), int) for x in case["values"]],
                 bool(case["minimize"]), res["sol"] if res else None, res["objective"] if res else None]
     k = None
     if res:
         o = core.unrat(res["objective"])
         k = int(o) if o.denominator == 1 and o >= 0 else None
     n = len(case["sizes"])
-    return ["pack", [rat(x) for x in case["sizes"]], rat(case["capacity"]), [bits(x) for x in case["sizes"]],
-            bits(case["capacity"]), bool(case["flags"][0]), bool(case["flags"][1]),
-            res["sol"] if res and k is not None else None, k, n <= 12]
+    algo = "best-fit-decreasing" if case["algorithm"] is None else case["algorithm"]
+    rd = [[fr(c), [fr(x) for x in ss]] for c, ss in pack_readings(case)] if n <= 12 and pack_valid(case) else []
+    return ["pack", [rat(x) for x in case["sizes"]], [fr(c) for c in pack_caps(case)[:2]],
+            [bits(x) for x in case["sizes"]], bits(case["capacity"]), algo,
+            res["sol"] if res and k is not None else None, k, rd]
 
 
 # ---------------------------------------------------------------------------
@@ -283,11 +347,13 @@ def knap_valid(case):
     return len(case["values"]) == 0 or (len(case["values"]) == len(case["weights"]) and case["capacity"][0] >= 0)
 
 
+ALGOS = [a for v in SPELL.values() for a in v]
+
+
 def pack_valid(case):
     if len(case["sizes"]) == 0:
         return True
-    a = case["algorithm"]
-    if a is not None and a not in sum(SPELL.values(), []):
+    if case["algorithm"] not in ALGOS:
         return False
     c = frac(case["capacity"])
     return c > 0 and all(0 <= frac(s) <= c for s in case["sizes"])
@@ -296,13 +362,14 @@ def pack_valid(case):
 def judge_knap(ctx, case, out, reply):
     fn = "solve_knapsack"
     rep = {"case": case, "impl": out, "model": reply}
-    m_status, m_sel, m_fb, m_lossless, m_intcap, best, chk, dp = reply
+    m_status, m_sel, m_objbits, m_fb, m_lossless, m_intcap, best_o, best_s, chk, dp = reply
     valid = knap_valid(case)
     n = len(case["values"])
     W = [frac(x) for x in case["weights"]]
-    C = frac(case["capacity"])
+    C, C_feas, C_opt = knap_caps(case)
     integer = all(x[1] == 1 for x in case["weights"]) and case["capacity"][1] == 1
-    ctx.count("knap:" + ("malformed" if not valid else "integer" if integer else "decimal"))
+    ctx.count("knap:" + ("malformed" if not valid else "integer" if integer else "exact_fraction" if C_feas == C
+                         else "inexact"))
     ctx.count("knap:minimize" if case["minimize"] else "knap:maximize")
     canon = ["k", case["values"], case["weights"], case["capacity"], case["minimize"]]
     if out[0] != "ok":
@@ -339,39 +406,42 @@ def judge_knap(ctx, case, out, reply):
             ctx.fail(fn, "indices_not_distinct", f"selection {sol} has repeated or out-of-range indices "
                      "(verified checker chkSel)", rep)
         else:
-            ctx.fail(fn, "over_capacity", f"selection {sol} weighs {sel_w} > capacity {C} (verified checker chkSel)", rep)
-    dyadic_vals = all(x[1] in (1, 4) for x in case["values"])
-    if dyadic_vals:
+            ctx.fail(fn, "over_capacity", f"selection {sol} weighs {sel_w} > capacity {C} (+ tolerance {C_feas - C}) "
+                     "(verified checker chkSel)", rep)
+    exact_vals = all(exact(x) for x in case["values"])
+    if exact_vals:
         if feas and not full:
             ctx.fail(fn, "objective_mismatch", f"objective {obj} != sum of selected values {sel_v} "
                      "(verified checker chkKnapsack)", rep)
     elif abs(obj - sel_v) > Fraction(1, 10**9) * max(1, abs(sel_v)):
         ctx.fail(fn, "objective_mismatch", f"objective {float(obj)} differs from the sum of selected values {sel_v} "
                  "by more than 1e-9", rep)
-    if best is None:
+    if best_o is None or best_s is None:
         raise RuntimeError(f"knapBest undefined on a valid case: {case}")
-    best = core.unrat(best)
+    best_o, best_s = core.unrat(best_o), core.unrat(best_s)
     sign = -1 if case["minimize"] else 1
-    if dp is not None and core.unrat(dp[1]) != best:
-        raise RuntimeError(f"proved DP value {dp[1]} != definitional optimum {best}: {case}")
-    if feas and sign * sel_v > best:
+    if dp is not None and core.unrat(dp[1]) != best_s:
+        raise RuntimeError(f"proved DP value {dp[1]} != definitional optimum {best_s}: {case}")
+    if feas and C_feas == C and sign * sel_v > best_s:
         raise RuntimeError(f"feasible selection better than the definitional optimum: {case}")
-    if r["status"] == "OPTIMAL" and feas and sign * sel_v != best:
+    vtol = 0 if exact_vals else Fraction(1, 10**9) * max(1, abs(best_o))
+    if r["status"] == "OPTIMAL" and feas and sign * sel_v < best_o - vtol:
         if C == 0:
             k = "nonoptimal_optimal:zero_capacity"
         elif not integer:
             k = "nonoptimal_optimal:decimal_weights"
         else:
             k = "nonoptimal_optimal"
-        ctx.fail(fn, k, f"status OPTIMAL with value {sel_v}, but the proved optimum over all subsets within "
-                 f"capacity is {sign * best}", rep)
-    # R_trace: returned status and selection equal to the mirror's
-    if (r["status"], r["sol"]) != (m_status, m_sel):
-        ctx.tdiv(fn, {"case": case, "impl": r, "mirror": {"status": m_status, "sel": m_sel, "fallback": m_fb}})
+        ctx.fail(fn, k, f"status OPTIMAL with value {sel_v}, but a subset within capacity"
+                 f"{'' if C_opt == C else ' (even shrunk by the tolerance)'} has value {sign * best_o}", rep)
+    # R_trace: returned status, selection and objective equal to the Float mirror's
+    if (r["status"], r["sol"], obj) != (m_status, m_sel, unbits(m_objbits)):
+        ctx.tdiv(fn, {"case": case, "impl": r, "mirror": {"status": m_status, "sel": m_sel, "fallback": m_fb,
+                                                          "objective": str(unbits(m_objbits))}})
     else:
         ctx.count("r_trace_agree")
     # ... and, where floats are exact (integer weights, dyadic values), to the proved rational DP itself
-    if dp is not None and dyadic_vals and not m_fb:
+    if dp is not None and exact_vals and not m_fb:
         if dp[0] != r["sol"]:
             ctx.tdiv(fn, {"case": case, "impl": r, "rational_dp": dp})
         else:
@@ -381,7 +451,7 @@ def judge_knap(ctx, case, out, reply):
     if not integer:
         ctx.count("knap:scaling_lossless" if m_lossless else "knap:scaling_lossy")
     nontrivial = n >= 2 and sum(W, Fraction(0)) > C and any(w <= C for w in W)
-    ctx.case(canon, nontrivial, {"case": case, "impl": r, "mirror": [m_status, m_sel], "optimum": str(sign * best)})
+    ctx.case(canon, nontrivial, {"case": case, "impl": r, "mirror": [m_status, m_sel], "optimum": str(sign * best_s)})
 
 
 def judge_pack(ctx, case, out, reply):
@@ -390,8 +460,9 @@ def judge_pack(ctx, case, out, reply):
     (f_status, f_asg, f_k), (r_status, r_asg, r_k, r_chk), chk_impl, optw, lb = reply
     valid = pack_valid(case)
     n = len(case["sizes"])
-    ub, dec = case["flags"]
-    name = ("best" if ub else "first") + "-fit" + ("-decreasing" if dec else "")
+    ub, dec_ = case["flags"]
+    name = ("best" if ub else "first") + "-fit" + ("-decreasing" if dec_ else "")
+    caps = pack_caps(case)
     ctx.count("pack:" + ("malformed" if not valid else name))
     canon = ["p", case["sizes"], case["capacity"], case["algorithm"]]
     if out[0] != "ok":
@@ -399,7 +470,7 @@ def judge_pack(ctx, case, out, reply):
         ctx.count("pack:error:" + kind)
         if valid:
             ctx.fail(fn, "raises:" + kind, f"valid input raised/timed out: {out[1][:200]}", rep)
-        elif kind != "ValueError" or (f_status != "ValueError" and case["algorithm"] in sum(SPELL.values(), [])):
+        elif (kind, f_status) != ("ValueError", "ValueError"):
             ctx.tdiv(fn, {"case": case, "impl": out, "mirror": f_status})
         ctx.case(canon, False)
         return
@@ -411,13 +482,20 @@ def judge_pack(ctx, case, out, reply):
         return
     if r_status == "ValueError" or (n and not r_chk):
         raise RuntimeError(f"rational packing model fails its own verified checker on a valid case: {case}")
-    opt = None
-    if optw is not None:
-        opt, _witness, w_ok = optw
-        if not w_ok:
-            raise RuntimeError(f"oracle packing rejected by the verified checker: {case} {optw}")
-        ctx.count("pack:optimum_certified_by_lower_bound" if opt == max(lb, 1 if len(case["sizes"]) else 0)
-                  else "pack:optimum_minimality_by_exhaustive_oracle")
+    ctx.count("pack:exact_inputs" if len(caps) == 1 else "pack:inexact_inputs")
+    opt_lo = opt_hi = None
+    if optw:
+        opts = []
+        for (o_w, w_ok, o_p), c in zip(optw, caps):
+            if not w_ok:
+                raise RuntimeError(f"oracle packing rejected by the verified checker: {case} {optw}")
+            if o_w != o_p:
+                raise RuntimeError(f"certified upper bound {o_w} != proved lower bound {o_p} on OPT: {case}")
+            opts.append(o_w)
+        opt_lo, opt_hi = min(opts), max(opts)   # tolerant capacity gives the least, shrunk the largest
+        ctx.count("pack:optimum_certified")
+        if opt_lo != opt_hi:
+            ctx.count("pack:optimum_depends_on_tolerance")
     if not r["shape"]:
         ctx.fail(fn, "bad_solution_shape", f"solution is not a tuple of non-negative ints: {r['sol']}", rep)
         ctx.case(canon, False)
@@ -435,30 +513,30 @@ def judge_pack(ctx, case, out, reply):
     asg = r["sol"]
     if not chk_impl:
         S = [frac(x) for x in case["sizes"]]
-        C = frac(case["capacity"])
+        C = caps[1] if len(caps) > 1 else caps[0]
         if len(asg) != n:
             what, kl = f"{len(asg)} assignments for {n} items", "item_not_assigned_once"
         elif sorted(set(asg)) != list(range(k)):
             what, kl = f"bins used {sorted(set(asg))} are not 0..{k - 1} (objective {k})", "bins_not_0_to_k"
         else:
             loads = [sum((S[i] for i in range(n) if asg[i] == b), Fraction(0)) for b in range(k)]
-            what, kl = f"bin loads {[str(x) for x in loads]} exceed capacity {C}", "over_capacity"
+            what, kl = f"bin loads {[str(x) for x in loads]} exceed capacity {C} (tolerance included)", "over_capacity"
         ctx.fail(fn, kl, what + " (verified checker chkPack)", rep)
     else:
         ctx.count("cert_checked_impl")
         if k < lb:
             raise RuntimeError(f"checker accepted k={k} below ceil(sum/cap)={lb}: {case}")
-        if opt is not None:
-            if k < opt:
-                raise RuntimeError(f"checker accepted k={k} below the exhaustive optimum {opt}: {case}")
-            if r["status"] == "OPTIMAL" and k != opt:
-                ctx.fail(fn, "optimal_not_minimal", f"status OPTIMAL with {k} bins, {opt} suffice", rep)
-            if dec and 9 * k > 11 * opt + 6:
-                rounding = (f_asg, f_k) != (r_asg, r_k) and any(x[1] == 10 for x in case["sizes"] + [case["capacity"]])
-                kl = "bound_11_9_exceeded:float_rounding" if rounding else "bound_11_9_exceeded"
-                ctx.fail(fn, kl, f"{name} used {k} bins, optimum {opt}: above 11/9*OPT + 6/9", rep)
+        if opt_lo is not None:
+            if k < opt_lo:
+                raise RuntimeError(f"checker accepted k={k} below the certified optimum {opt_lo}: {case}")
+            if r["status"] == "OPTIMAL" and k > opt_hi:
+                ctx.fail(fn, "optimal_not_minimal", f"status OPTIMAL with {k} bins, {opt_hi} suffice", rep)
+            if dec_ and 9 * k > 11 * opt_hi + 6:
+                ctx.fail(fn, "bound_11_9_exceeded", f"{name} used {k} bins, optimum {opt_hi}"
+                         f"{'' if opt_lo == opt_hi else ' (capacity shrunk by the float tolerance)'}: "
+                         "above 11/9*OPT + 6/9", rep)
         elif r["status"] == "OPTIMAL" and k > max(1, lb):
-            # no exhaustive optimum for this size: OPTIMAL must at least meet the code's own rule
+            # no optimum computed for this size: OPTIMAL must at least meet the code's own rule
             ctx.fail(fn, "optimal_not_minimal", f"status OPTIMAL with {k} bins, lower bound {lb}", rep)
     # R_trace: status, assignment, bin count equal to the Float mirror's
     if (r["status"], asg, k) != (f_status, f_asg, f_k):
@@ -466,31 +544,140 @@ def judge_pack(ctx, case, out, reply):
     else:
         ctx.count("r_trace_agree")
     # ... and, where floats are exact (integers, k/4), to the rational model binpack_valid talks about
-    if all(x[1] in (1, 4) for x in case["sizes"] + [case["capacity"]]):
+    if len(caps) == 1:
         if (r["status"], asg, k) != (r_status, r_asg, r_k):
             ctx.tdiv(fn, {"case": case, "impl": r, "rational_mirror": [r_status, r_asg, r_k]})
         else:
             ctx.count("pack:proved_model_equal")
     if (f_asg, f_k) != (r_asg, r_k):
         ctx.count("pack:float_vs_rational_mirror_differ")
-    ctx.case(canon, n >= 3 and f_k >= 2, {"case": case, "impl": r, "mirror": [f_status, f_asg, f_k], "optimum": opt})
+    ctx.case(canon, n >= 3 and f_k >= 2, {"case": case, "impl": r, "mirror": [f_status, f_asg, f_k], "optimum": opt_hi})
 
 
-def run_cases(ctx, cases):
+def judge(ctx, case, out, reply):
+    (judge_knap if case["fn"] == "knapsack" else judge_pack)(ctx, case, out, reply)
+
+
+def evaluate(cases):
     outs = run_pool(impl, cases, timeout=60.0)
     reqs = [to_request(c, o) for c, o in zip(cases, outs)]
     replies = Driver("Pack").run(reqs, chunks=16)
-    for c, o, rp in zip(cases, outs, replies):
+    for c, rp in zip(cases, replies):
         if rp and rp[0] == "error":
             raise RuntimeError(f"model rejected request: {rp} for {c}")
-        (judge_knap if c["fn"] == "knapsack" else judge_pack)(ctx, c, o, rp)
+    return list(zip(outs, replies))
+
+
+# ---------------------------------------------------------------------------
+# shrinking: a violation is reported on the smallest case (fewest items, simplest numbers) that
+# still fails the same clause of the same function
+# ---------------------------------------------------------------------------
+
+class Collect:
+    """stands in for ctx: records failures instead of reporting them"""
+
+    def __init__(self, ctx=None):
+        self.ctx = ctx
+        self.fails = []
+
+    def fail(self, fn, klass, what, rep):
+        self.fails.append((fn, klass, what, rep))
+
+    def tdiv(self, *a):
+        if self.ctx:
+            self.ctx.tdiv(*a)
+
+    def count(self, *a):
+        if self.ctx:
+            self.ctx.count(*a)
+
+    def case(self, *a):
+        if self.ctx:
+            self.ctx.case(*a)
+
+
+def smaller(case):
+    """candidate simplifications, most drastic first"""
+    out = []
+    if case["fn"] == "knapsack":
+        n = min(len(case["values"]), len(case["weights"]))
+        if len(case["values"]) == len(case["weights"]):
+            for i in range(n):
+                c = copy.deepcopy(case)
+                del c["values"][i], c["weights"][i]
+                out.append(c)
+        for key in ("values", "weights"):
+            for i, x in enumerate(case[key]):
+                for y in ([0, 1, False], [1, 1, False], [x[0] // 2, x[1], x[2]], [x[0] // x[1], 1, False]):
+                    if y != x and dec(y) <= dec(x):
+                        c = copy.deepcopy(case)
+                        c[key][i] = y
+                        out.append(c)
+        x = case["capacity"]
+        for y in ([x[0] // 2, x[1], x[2]], [x[0] // x[1], 1, False], [x[0] - 1, x[1], x[2]]):
+            if y != x and 0 <= dec(y) <= dec(x):
+                c = copy.deepcopy(case)
+                c["capacity"] = y
+                out.append(c)
+        if case["minimize"]:
+            c = copy.deepcopy(case)
+            c["minimize"] = False
+            out.append(c)
+    else:
+        for i in range(len(case["sizes"])):
+            c = copy.deepcopy(case)
+            del c["sizes"][i]
+            out.append(c)
+        for i, x in enumerate(case["sizes"]):
+            for y in ([0, x[1], x[2]], [x[0] // 2, x[1], x[2]], [x[0] - 1, x[1], x[2]]):
+                if y != x and 0 <= y[0]:
+                    c = copy.deepcopy(case)
+                    c["sizes"][i] = y
+                    out.append(c)
+    return out
+
+
+def shrink(case, fn, klass, rounds=60):
+    cur, best = case, None
+    for _ in range(rounds):
+        cands = smaller(cur)
+        if not cands:
+            break
+        hit = None
+        for c, (o, rp) in zip(cands, evaluate(cands)):
+            p = Collect()
+            judge(p, c, o, rp)
+            f = [x for x in p.fails if (x[0], x[1]) == (fn, klass)]
+            if f:
+                hit = (c, f[0])
+                break
+        if hit is None:
+            break
+        cur, best = hit[0], hit[1]
+    return cur, best
+
+
+def run_cases(ctx, cases, do_shrink=True):
+    col = Collect(ctx)
+    for c, (o, rp) in zip(cases, evaluate(cases)):
+        judge(col, c, o, rp)
+    budget = 4  # shrink the first few distinct (function, class) pairs only
+    seen = set()
+    for fn, klass, what, rep in col.fails:
+        if do_shrink and (fn, klass) not in seen and budget > 0 and ctx.known_match(fn, klass) is None \
+                and not klass.startswith("raises:Timeout"):
+            seen.add((fn, klass))
+            budget -= 1
+            small, f = shrink(rep["case"], fn, klass)
+            if f is not None:
+                what, rep = f[2], dict(f[3], original_case=rep["case"])
+        ctx.fail(fn, klass, what, rep)
 
 
 MISSING = ["ffd_11_9_bound: the 11/9*OPT+6/9 guarantee of the decreasing heuristics (Dosa) is not attempted in Lean; "
-           "checked per instance against a certified upper bound on OPT",
-           "minBins_minimal: minimality of the exhaustive oracle when it exceeds ceil(sum/cap)",
-           "the floating-point front end of solve_knapsack is mirrored on Float, not proved (knapsack_scaled_optimal "
-           "covers its exact-arithmetic idealisation)"]
+           "checked per instance against the certified optimum",
+           "the Float instance of the front end of solve_knapsack is tied by R_trace, its Rat instance is the theorem "
+           "subject (knapsack_lossless_optimal, knapsack_mirror_feasible)"]
 
 
 def run(ctx, budget):
@@ -508,4 +695,4 @@ def run(ctx, budget):
 def replay(ctx, body):
     ctx.cov["rule"] = RULE
     ctx.cov["missing_theorems"] = MISSING
-    run_cases(ctx, [body["case"]])
+    run_cases(ctx, [body["case"]], do_shrink=False)
